@@ -257,8 +257,8 @@ func TestEncryption(t *testing.T) {
 	pad := func(k string) string { return strings.TrimRight(k, "=") }
 	encVals := []string{"on", "aesgcm", "", "off", "ON", "On", "true", "1", "aesgcm ", "AESGCM", "on,aesgcm"}
 	keyVals := []string{"", key32, key16, key24, pad(key32), key32 + "\n", "***", base64.URLEncoding.EncodeToString([]byte("short")),
-		base64.URLEncoding.EncodeToString(bytes.Repeat([]byte{1}, 33)), base64.StdEncoding.EncodeToString(bytes.Repeat([]byte{0xfb, 0xff}, 16)), key16[:len(key16)-3] + "A==", " " + key32}
-	envVals := []string{"", key24, "!!", key32}
+		base64.URLEncoding.EncodeToString(bytes.Repeat([]byte{1}, 33)), base64.StdEncoding.EncodeToString(bytes.Repeat([]byte{0xfb, 0xff}, 16)), key16[:len(key16)-3] + "A==", " " + key32, " ", "\n", " \t "}
+	envVals := []string{"", key24, "!!", key32, " ", "\n"}
 	for _, kv := range append(append([]string{}, keyVals...), envVals...) {
 		addCandidate(kv)
 		addCandidate(strings.TrimSpace(kv))
